@@ -1032,6 +1032,21 @@ impl MqttClientImpl {
     }
 }
 
+#[cfg(feature = "verif")]
+impl MqttClientImpl {
+    /// (next period, base, max, stability reset period) — read-only view for the verification facade
+    pub(crate) fn verif_reconnect_state(&self) -> (Duration, Duration, Duration, Duration) {
+        (self.next_reconnect_period, self.reconnect_options.base_reconnect_period, self.reconnect_options.max_reconnect_period,
+         self.reconnect_options.reconnect_stability_reset_period)
+    }
+
+    /// desired state and whether a stop-with-disconnect is pending — read-only view for the verification facade
+    pub(crate) fn verif_desired_state(&self) -> (ClientImplState, bool, bool) {
+        (self.desired_state, self.desired_stop_options.is_some(),
+         self.desired_stop_options.as_ref().map(|o| o.disconnect.is_some()).unwrap_or(false))
+    }
+}
+
 // Re-exports to mask internal module structure
 
 pub use crate::client::asynchronous::{AsyncClient, AsyncClientHandle, AsyncPublishResult, AsyncSubscribeResult, AsyncUnsubscribeResult};
